@@ -3,8 +3,10 @@ package main
 import (
 	"bytes"
 	"context"
+	"encoding/binary"
 	"encoding/json"
 	"fmt"
+	"io"
 	"strings"
 	"time"
 
@@ -12,8 +14,12 @@ import (
 	"berty.tech/go-ipfs-log/entry"
 	idp "berty.tech/go-ipfs-log/identityprovider"
 	"berty.tech/go-orbit-db/iface"
+	"berty.tech/go-orbit-db/stores/basestore"
 	"berty.tech/go-orbit-db/stores/operation"
+	files "github.com/ipfs/boxo/files"
+	"github.com/ipfs/boxo/path"
 	cid "github.com/ipfs/go-cid"
+	datastore "github.com/ipfs/go-datastore"
 	"verifharness/sim"
 )
 
@@ -36,13 +42,18 @@ type hostile struct {
 	u      *Universe
 	ctx    context.Context
 	badBlk []int // hash numbers of entries whose identity block is not a genuinely issued one
-	wl     []int // write list as identity numbers
+	wl     []int // write list AS CONFIGURED, as identity numbers (the model derives the enforced list)
 	wild   bool
 	seq    int
+	// nobody can write on this database (simple controller, empty list): there is no genuine
+	// entry to announce behind a hostile message; the message routes wait for quiescence only
+	noMarker bool
 }
 
 const nobody = "\x00nobody"
 
+// newHostile: writers = the write list the database is configured with (replica indices;
+// possibly empty), wild = the list is the wildcard.  The controller type is the scenario's.
 func newHostile(r *Run, s *Scen, u *Universe, writers []int, wild bool) *hostile {
 	h := &hostile{r: r, s: s, u: u, ctx: context.Background(), wild: wild}
 	for _, w := range writers {
@@ -94,7 +105,12 @@ func (h *hostile) cfgCoq() string {
 		id := rep.Orbit.Identity()
 		ik[i] = fmt.Sprintf("(%s, %s)", sim.CoqN(h.s.Canon.Ident.ID(id.ID)), sim.CoqN(h.s.Canon.Key.ID(string(id.PublicKey))))
 	}
-	return fmt.Sprintf("(mkCfg %s %s %s %s)", sim.CoqListN(h.wl), sim.CoqBool(h.wild), sim.CoqList(ik), sim.CoqListN(h.badBlk))
+	typ := "ACIpfs"
+	if h.s.ACType == "simple" {
+		typ = "ACSimple"
+	}
+	creator := h.s.Canon.Ident.ID(h.s.Reps[0].Orbit.Identity().ID)
+	return fmt.Sprintf("(mkCfg %s %s %s %s %s %s)", typ, sim.CoqN(creator), sim.CoqListN(h.wl), sim.CoqBool(h.wild), sim.CoqList(ik), sim.CoqListN(h.badBlk))
 }
 
 // payload builds a fresh operation of the scenario's store type; tag identifies it in queries.
@@ -209,6 +225,172 @@ type hdelivery struct {
 	key, val string         // how the target's value would show in queries
 	// judge visibility by membership in Values() (for values not attributable to the target)
 	visByListing bool
+	// route snapshot: how the hostile entry is put into the snapshot file
+	//   extra   = an additional entry frame
+	//   replace = in place of the frame (and header head) of a genuine entry, under that entry's address
+	//   head    = an additional head in the header
+	// (d.heads[0] is the entry as presented; "replace" re-labels it with the genuine entry's address)
+	snapVariant string
+	// route snapshot: the restarted replica first loads from its heads cache (Load), so that the
+	// snapshot is joined into a log that already holds the entries, instead of an empty one
+	snapPreload bool
+	// the target's value is unique to it: its showing in queries under ANY address is the target showing
+	uniqueVal bool
+}
+
+// snapHeader mirrors basestore.storeSnapshot (unexported): the first frame of a snapshot file.
+type snapHeader struct {
+	ID    string         `json:"id,omitempty"`
+	Heads []*entry.Entry `json:"heads,omitempty"`
+	Size  int            `json:"size,omitempty"`
+	Type  string         `json:"type,omitempty"`
+}
+
+// readSnapshot fetches and parses the snapshot file the store's cache points to: 2-byte
+// big-endian length + JSON header, then per entry 2-byte length + JSON.
+func readSnapshot(ctx context.Context, st iface.Store) (string, *snapHeader, []*entry.Entry, error) {
+	sp, err := st.Cache().Get(ctx, datastore.NewKey("snapshot"))
+	if err != nil {
+		return "", nil, nil, fmt.Errorf("snapshot key: %w", err)
+	}
+	p, err := path.NewPath(string(sp))
+	if err != nil {
+		return "", nil, nil, err
+	}
+	nd, err := st.IPFS().Unixfs().Get(ctx, p)
+	if err != nil {
+		return "", nil, nil, err
+	}
+	f, ok := nd.(files.File)
+	if !ok {
+		return "", nil, nil, fmt.Errorf("snapshot is not a file")
+	}
+	defer f.Close()
+	raw, err := io.ReadAll(f)
+	if err != nil {
+		return "", nil, nil, err
+	}
+	frame := func() ([]byte, error) {
+		if len(raw) < 2 {
+			return nil, fmt.Errorf("snapshot file truncated")
+		}
+		n := int(binary.BigEndian.Uint16(raw))
+		if len(raw) < 2+n {
+			return nil, fmt.Errorf("snapshot file truncated")
+		}
+		b := raw[2 : 2+n]
+		raw = raw[2+n:]
+		return b, nil
+	}
+	hb, err := frame()
+	if err != nil {
+		return "", nil, nil, err
+	}
+	hdr := &snapHeader{}
+	if err := json.Unmarshal(hb, hdr); err != nil {
+		return "", nil, nil, err
+	}
+	var ents []*entry.Entry
+	for i := 0; i < hdr.Size; i++ {
+		eb, err := frame()
+		if err != nil {
+			return "", nil, nil, err
+		}
+		e := &entry.Entry{}
+		if err := json.Unmarshal(eb, e); err != nil {
+			return "", nil, nil, err
+		}
+		ents = append(ents, e)
+	}
+	return string(sp), hdr, ents, nil
+}
+
+// writeSnapshot serialises a snapshot exactly as basestore.SaveSnapshot does, adds the file to
+// the store's IPFS and points the store's cache at it.
+func writeSnapshot(ctx context.Context, st iface.Store, hdr *snapHeader, ents []*entry.Entry) error {
+	var rs []byte
+	put := func(v interface{}) error {
+		b, err := json.Marshal(v)
+		if err != nil {
+			return err
+		}
+		if len(b) > 0xffff {
+			return fmt.Errorf("snapshot frame of %d bytes", len(b))
+		}
+		sz := make([]byte, 2)
+		binary.BigEndian.PutUint16(sz, uint16(len(b)))
+		rs = append(append(rs, sz...), b...)
+		return nil
+	}
+	if err := put(hdr); err != nil {
+		return err
+	}
+	for _, e := range ents {
+		if err := put(e); err != nil {
+			return err
+		}
+	}
+	rs = append(rs, 0)
+	p, err := st.IPFS().Unixfs().Add(ctx, files.NewBytesFile(rs))
+	if err != nil {
+		return err
+	}
+	return st.Cache().Put(ctx, datastore.NewKey("snapshot"), []byte(p.String()))
+}
+
+// observeTrue observes a replica's store like observe, but numbers every object the log holds
+// by the address its CONTENT hashes to (recomputed through the store's IO on the hostile
+// replica's block store), whatever address the log files it under.
+func (h *hostile) observeTrue(rep, via int) (obs, int, error) {
+	st := h.s.Stores[rep]
+	l := st.OpLog().(*ipfslog.IPFSLog)
+	misfiled := 0
+	conv := func(es []ipfslog.Entry) ([]int, error) {
+		out := make([]int, len(es))
+		for i, x := range es {
+			e, ok := x.(*entry.Entry)
+			if !ok {
+				return nil, fmt.Errorf("log entry is not *entry.Entry")
+			}
+			c, err := h.trueAddress(via, e)
+			if err != nil {
+				return nil, err
+			}
+			if !c.Equals(e.Hash) {
+				misfiled++
+			}
+			k := c.String()
+			if !h.u.seen[k] {
+				// a content nobody registered: render it under its true address (own key as signer
+				// iff the real signature check accepts it)
+				t := clone(e)
+				t.Hash = c
+				signer := ""
+				if !h.verifies(t) {
+					signer = nobody
+				}
+				h.note(t, signer)
+			}
+			out[i] = h.s.Canon.Hash.ID(k)
+		}
+		return out, nil
+	}
+	var o obs
+	var err error
+	if o.log.Ents, err = conv(l.GetEntries().Slice()); err != nil {
+		return o, 0, err
+	}
+	if o.log.Heads, err = conv(l.RawHeads().Slice()); err != nil {
+		return o, 0, err
+	}
+	o.log.Clock = l.Clock.GetTime()
+	for _, k := range l.Next.Keys() {
+		o.log.Next = append(o.log.Next, h.s.Canon.Hash.ID(k))
+	}
+	if o.vals, err = conv(st.OpLog().Values().Slice()); err != nil {
+		return o, 0, err
+	}
+	return o, misfiled, nil
 }
 
 // perform delivers, waits for quiescence, and renders the Coq [delivery] record.
@@ -219,6 +401,7 @@ func (h *hostile) perform(d *hdelivery) (string, map[string]interface{}, error) 
 	mark := len(api.GetLog)
 	syncObs := "None"
 	extra := map[string]interface{}{}
+	restore := func(bool) {}
 	cp := func() []ipfslog.Entry {
 		out := make([]ipfslog.Entry, len(d.heads))
 		for i, e := range d.heads {
@@ -252,6 +435,10 @@ func (h *hostile) perform(d *hdelivery) (string, map[string]interface{}, error) 
 		// The victim handles messages of one channel in order.  A genuine entry of the
 		// creator announced right behind on the same channel tells when the hostile
 		// message has been through Sync.
+		if h.noMarker {
+			time.Sleep(100 * time.Millisecond)
+			break
+		}
 		mp, _, _ := h.payload("marker")
 		var m ipfslog.Entry
 		var err error
@@ -299,7 +486,7 @@ func (h *hostile) perform(d *hdelivery) (string, map[string]interface{}, error) 
 		// the reference is what a restart yields WITHOUT the hostile heads (a restart by itself
 		// may drop entries, e.g. a genuine entry whose ancestor is rejected: Load joins a head's
 		// whole fetched log at once; that is not this property's business)
-		if err := c13Reopen(s, d.victim); err != nil {
+		if err := s.Reopen(d.victim); err != nil {
 			return "", nil, err
 		}
 		if err := s.Stores[d.victim].Load(h.ctx, -1); err != nil {
@@ -325,11 +512,117 @@ func (h *hostile) perform(d *hdelivery) (string, map[string]interface{}, error) 
 		if err := st.Cache().Put(h.ctx, datastoreKey("_remoteHeads"), raw); err != nil {
 			return "", nil, err
 		}
-		if err := c13Reopen(s, d.victim); err != nil {
+		if err := s.Reopen(d.victim); err != nil {
 			return "", nil, err
 		}
 		if err := s.Stores[d.victim].Load(h.ctx, -1); err != nil {
 			extra["load_error"] = err.Error()
+		}
+	case "snapshot":
+		// load from a snapshot file: the victim saves a snapshot, the file is rebuilt with the
+		// hostile entry in it (the directory was tampered with, the file was produced by another
+		// version or taken over from somebody else), and the database is reopened and loaded from it.
+		// Reference: the same restart with the untouched snapshot.  (Every step of a scenario ends
+		// settled: the replicator's queue, which the snapshot also records, is empty.)
+		if _, err := basestore.SaveSnapshot(h.ctx, s.Stores[d.victim]); err != nil {
+			return "", nil, fmt.Errorf("save snapshot: %w", err)
+		}
+		cleanPath, hdr, ents, err := readSnapshot(h.ctx, s.Stores[d.victim])
+		if err != nil {
+			return "", nil, err
+		}
+		restart := func() error {
+			if err := s.Reopen(d.victim); err != nil {
+				return err
+			}
+			if d.snapPreload {
+				if err := s.Stores[d.victim].Load(h.ctx, -1); err != nil {
+					extra["preload_error"] = err.Error()
+				}
+				if !s.Settle() {
+					h.r.AddDirect("hang:load", "store did not settle after Load", map[string]interface{}{"route": d.route, "state": sim.LastSettleState})
+				}
+			}
+			return nil
+		}
+		extra["snapshot_preload"] = d.snapPreload
+		if err := restart(); err != nil {
+			return "", nil, err
+		}
+		if err := s.Stores[d.victim].LoadFromSnapshot(h.ctx); err != nil {
+			// LoadFromSnapshot walks the history again from the heads and joins all of it at once: a
+			// log holding a genuine entry with an unacceptable ancestor (route ancestor, earlier)
+			// reloads to nothing.  Not this property's business; the reference is then empty
+			extra["load_error_reference"] = err.Error()
+			h.r.Count("snapshot:reference-load-failed")
+		}
+		// (LoadFromSnapshot is synchronous, and nothing was queued when the snapshot was saved)
+		before = h.observe(d.victim)
+		mark = len(api.GetLog)
+		pres := clone(d.heads[0])
+		variant := d.snapVariant
+		if variant == "replace" && len(ents) == 0 {
+			variant = "extra"
+		}
+		switch variant {
+		case "extra":
+			ents = append(ents, pres)
+			hdr.Size = len(ents)
+		case "replace":
+			// the genuine entry whose address the presented entry claims, else any
+			gi := -1
+			for i, e := range ents {
+				if e.Hash.Equals(pres.Hash) && !pres.Hash.Equals(d.tcid) {
+					gi = i
+				}
+			}
+			if gi < 0 {
+				gi = h.r.Rng.Intn(len(ents))
+			}
+			g := ents[gi].Hash
+			pres.Hash = g
+			ents[gi] = pres
+			for i, hd := range hdr.Heads {
+				if hd.Hash.Equals(g) {
+					hdr.Heads[i] = pres
+				}
+			}
+			d.heads = []*entry.Entry{pres}
+		case "head":
+			hdr.Heads = append(hdr.Heads, pres)
+		default:
+			return "", nil, fmt.Errorf("unknown snapshot variant %q", d.snapVariant)
+		}
+		extra["snapshot_variant"] = variant
+		extra["snapshot_entries"] = len(ents)
+		if err := writeSnapshot(h.ctx, s.Stores[d.victim], hdr, ents); err != nil {
+			return "", nil, err
+		}
+		if err := restart(); err != nil {
+			return "", nil, err
+		}
+		lerr := s.Stores[d.victim].LoadFromSnapshot(h.ctx)
+		syncObs = "(Some " + sim.CoqBool(lerr == nil) + ")"
+		if lerr != nil {
+			extra["load_error"] = lerr.Error()
+		}
+		// afterwards: later restarts of this replica find the untouched snapshot again, and a
+		// replica whose load failed as a whole gets its log back from it
+		// (dirty: the log holds something it should not; start again from an empty log)
+		restore = func(dirty bool) {
+			_ = s.Stores[d.victim].Cache().Put(h.ctx, datastore.NewKey("snapshot"), []byte(cleanPath))
+			if dirty {
+				if err := s.Reopen(d.victim); err != nil {
+					h.r.Count("snapshot-restore-failed")
+					return
+				}
+			}
+			if dirty || lerr != nil {
+				if err := s.Stores[d.victim].LoadFromSnapshot(h.ctx); err != nil {
+					h.r.Count("snapshot-restore-failed")
+				}
+				s.Settle()
+			}
 		}
 	default:
 		return "", nil, fmt.Errorf("unknown route %s", d.route)
@@ -338,6 +631,14 @@ func (h *hostile) perform(d *hdelivery) (string, map[string]interface{}, error) 
 		h.r.AddDirect("hang:sync", "replication did not settle", map[string]interface{}{"route": d.route, "state": sim.LastSettleState})
 	}
 	after := h.observe(d.victim)
+	misfiled := 0
+	if d.route == "snapshot" {
+		var err error
+		if after, misfiled, err = h.observeTrue(d.victim, d.from); err != nil {
+			return "", nil, err
+		}
+		extra["misfiled"] = misfiled
+	}
 	// what the replica fetched during the step, in order, as entry numbers
 	var fetched []int
 	seenF := map[string]bool{}
@@ -349,6 +650,10 @@ func (h *hostile) perform(d *hdelivery) (string, map[string]interface{}, error) 
 		fetched = append(fetched, s.Canon.Hash.ID(c))
 	}
 	vis := h.visible(d.victim, d.tcid, d.key, d.val)
+	if d.route == "snapshot" && d.uniqueVal && !vis {
+		// filed under the address the snapshot claims for it
+		vis = h.visible(d.victim, d.heads[0].Hash, d.key, d.val)
+	}
 	if d.visByListing {
 		vis = false
 		for _, x := range after.vals {
@@ -372,6 +677,7 @@ func (h *hostile) perform(d *hdelivery) (string, map[string]interface{}, error) 
 		}
 		return false
 	}
+	restore(in(after.log.Ents) || in(after.log.Heads) || in(after.vals) || misfiled > 0)
 	extra["route"] = d.route
 	extra["victim"] = d.victim
 	extra["fetched"] = len(fetched)
@@ -411,7 +717,8 @@ func errClass(err error) int {
 type wlConfig struct {
 	name    string
 	opts    ScenOpts
-	writers []int // effective write list (replica indices)
+	conf    []int // the write list as configured (replica indices)
+	writers []int // the list the controller is expected to enforce (replica indices)
 	wild    bool
 }
 
@@ -497,34 +804,77 @@ func c03Sig(kind string) string {
 	return "c03-other"
 }
 
-// C03: write lists x non-writer identities x routes x forgeries of the author fields.
-// Replicas: 0 creator (always a writer), 1 second writer in the explicit configuration,
-// 2 hostile (never in the write list), 3 observer.  Victims: 1 and 3.
+// C03: controller types x write lists x non-writer identities x routes x forgeries of the
+// author fields.
+// Replicas: 0 creator, 1 second writer in the explicit configurations, 2 hostile (never in
+// the write list), 3 and 4 observers.  Victims: 1 and 3; the snapshot route mostly takes 4,
+// which never receives a colluder's entry (route ancestor): a log holding a genuine entry
+// with an unacceptable ancestor cannot be reloaded from a snapshot at all (the reload walks
+// the history from the heads and joins everything at once), which would leave the snapshot
+// route little to show.
+// Controller types: ipfs (the default) and simple (nothing persisted: every opener passes the
+// list).  The third type, "orbitdb", cannot be constructed in this port (its constructor
+// panics) and is left out.
 func runC03(r *Run) error {
 	defer closeEnv()
 	configs := []wlConfig{
-		{"explicit", ScenOpts{Writers: []int{0, 1}}, []int{0, 1}, false},
-		{"wildcard", ScenOpts{Wildcard: true}, nil, true},
-		{"empty-default-creator", ScenOpts{Writers: []int{}}, []int{0}, false},
-		{"creator-only", ScenOpts{Writers: []int{0}}, []int{0}, false},
+		{"explicit", ScenOpts{Writers: []int{0, 1}}, []int{0, 1}, []int{0, 1}, false},
+		{"wildcard", ScenOpts{Wildcard: true}, nil, nil, true},
+		{"empty-default-creator", ScenOpts{Writers: []int{}}, nil, []int{0}, false},
+		{"creator-only", ScenOpts{Writers: []int{0}}, []int{0}, []int{0}, false},
+		{"simple/explicit", ScenOpts{ACType: "simple", Writers: []int{0, 1}}, []int{0, 1}, []int{0, 1}, false},
+		{"simple/wildcard", ScenOpts{ACType: "simple", Wildcard: true}, nil, nil, true},
+		{"simple/empty-nobody", ScenOpts{ACType: "simple", Writers: []int{}}, nil, nil, false},
 	}
 	types := []string{"eventlog", "keyvalue"}
 	rounds := 2
 	if r.Tier == "thorough" {
 		rounds = 12
 	}
-	routes := []string{"sync", "pubsub", "exchange", "ancestor", "cache"}
+	const nrep = 5
+	routes := []string{"sync", "pubsub", "exchange", "ancestor", "cache", "snapshot"}
+	snapVariants := []string{"extra", "replace", "head"}
 	ctx := context.Background()
 	for round := 0; round < rounds; round++ {
 		for ci, cfg := range configs {
 			typ := types[(round+ci)%2]
 			opts := cfg.opts
-			s, err := NewScen(4, typ, &opts)
+			simple := opts.ACType == "simple"
+			if r.Tier != "thorough" && simple && cfg.name != "simple/empty-nobody" && (ci+round)%2 != 0 {
+				// quick: the empty list of the simple controller in every round, its explicit list
+				// and its wildcard in turn
+				continue
+			}
+			if simple {
+				// an empty list as an empty "write" entry or as no entry at all
+				opts.ACNoWriteKey = r.Rng.Intn(2) == 0
+			}
+			s, err := NewScen(nrep, typ, &opts)
 			if err != nil {
 				return err
 			}
 			u := s.NewUniverse()
-			h := newHostile(r, s, u, cfg.writers, cfg.wild)
+			h := newHostile(r, s, u, cfg.conf, cfg.wild)
+			h.noMarker = !cfg.wild && len(cfg.writers) == 0
+			// which routes a forgery is delivered by.  thorough: all of them.  quick: the ipfs
+			// configurations keep the five message/cache routes for every forgery and get the
+			// snapshot route for every third; the simple configurations get two routes per forgery
+			// (one when nobody can write: the log stays empty), rotating, so that every route is
+			// taken by some forgery in every scenario
+			off := r.Rng.Intn(len(routes))
+			routesFor := func(fi int) []string {
+				switch {
+				case r.Tier == "thorough":
+					return routes
+				case simple && h.noMarker:
+					return []string{routes[(off+fi)%len(routes)]}
+				case simple:
+					return []string{routes[(off+2*fi)%len(routes)], routes[(off+2*fi+1)%len(routes)]}
+				case (fi+off)%3 == 0:
+					return routes
+				}
+				return routes[:5]
+			}
 			lid := sim.CoqN(s.Canon.LogID.ID(s.Addr))
 			isWriter := func(rep int) bool {
 				if cfg.wild {
@@ -545,7 +895,7 @@ func runC03(r *Run) error {
 				after := snapLog(s, u, s.Stores[rep])
 				cls := errClass(werr)
 				descr := map[string]interface{}{"kind": what, "config": cfg.name, "type": typ, "replica": rep,
-					"writer": isWriter(rep), "errclass": cls, "sig": "c03-other"}
+					"writer": isWriter(rep), "errclass": cls, "sig": "c03-other", "controller": s.ACType}
 				if werr != nil {
 					descr["error"] = werr.Error()
 				}
@@ -563,7 +913,7 @@ func runC03(r *Run) error {
 				}
 				// (a refused write of an authorised writer is recorded, not fatal)
 				localCase(w, "history", func() error { return writeOp(r, s, s.Stores[w], i) })
-				for to := 0; to < 4; to++ {
+				for to := 0; to < nrep; to++ {
 					if to != w && r.Rng.Intn(3) > 0 {
 						if err := s.SyncFrom(to, w); err != nil {
 							return err
@@ -572,7 +922,7 @@ func runC03(r *Run) error {
 					}
 				}
 			}
-			for to := 1; to < 4; to++ {
+			for to := 1; to < nrep; to++ {
 				for _, w := range []int{0, 1} {
 					if to != w {
 						if err := s.SyncFrom(to, w); err != nil {
@@ -586,7 +936,7 @@ func runC03(r *Run) error {
 				u.Note(st.OpLog().Values().Slice())
 			}
 			// --- local write route: every replica tries to write on its own store
-			for rep := 1; rep < 4; rep++ {
+			for rep := 1; rep < nrep; rep++ {
 				rep := rep
 				localCase(rep, "local", func() error {
 					var werr error
@@ -604,7 +954,7 @@ func runC03(r *Run) error {
 				})
 			}
 			// bring the writers' local entries to everybody again so that victims start level
-			for to := 1; to < 4; to++ {
+			for to := 1; to < nrep; to++ {
 				for _, w := range []int{0, 1} {
 					if to != w && isWriter(w) {
 						if err := s.SyncFrom(to, w); err != nil {
@@ -616,9 +966,12 @@ func runC03(r *Run) error {
 			}
 			// --- remote routes
 			me := 2
-			for _, kind := range c03Forgeries {
-				for _, route := range routes {
+			for fi, kind := range c03Forgeries {
+				for _, route := range routesFor(fi) {
 					victim := []int{1, 3}[r.Rng.Intn(2)]
+					if route == "snapshot" && r.Rng.Intn(3) > 0 {
+						victim = 4
+					}
 					// links and clock of the hostile entry: on top of what the victim holds, or detached
 					var next []cid.Cid
 					t := 1 + r.Rng.Intn(3)
@@ -642,7 +995,11 @@ func runC03(r *Run) error {
 						return fmt.Errorf("forgery %s: signature check %v does not match the symbolic signer", kind, h.verifies(x))
 					}
 					tn := h.note(x, signer)
-					d := &hdelivery{route: route, victim: victim, from: me, target: tn, tcid: x.Hash, key: key, val: val}
+					d := &hdelivery{route: route, victim: victim, from: me, target: tn, tcid: x.Hash, key: key, val: val, uniqueVal: true}
+					if route == "snapshot" {
+						d.snapVariant = snapVariants[r.Rng.Intn(len(snapVariants))]
+						d.snapPreload = r.Rng.Intn(4) == 0
+					}
 					if route == "ancestor" {
 						c, err := h.colluder(0, x)
 						if err != nil {
@@ -662,10 +1019,18 @@ func runC03(r *Run) error {
 					extra["type"] = typ
 					extra["forgery"] = kind
 					extra["sig"] = c03Sig(kind)
+					if route == "snapshot" {
+						// not the known message-route findings: what a snapshot file states is trusted
+						extra["sig"] = "snapshot/" + c03Sig(kind)
+					}
 					extra["write_list"] = h.wl
-					if route == "cache" {
+					extra["controller"] = s.ACType
+					switch route {
+					case "cache":
 						r.AddCase("(CCached "+term+")", extra, true)
-					} else {
+					case "snapshot":
+						r.AddCase("(CSnapshot "+term+")", extra, true)
+					default:
 						r.AddCase("(CRemote "+term+")", extra, true)
 					}
 					r.Count("remote:" + route)
